@@ -14,7 +14,7 @@ CONSTANT SnapshotBeforeRun
 Modes == {"workspace", "single"}
 Inputs == {"none", "text", "lineprotocol"}
 Outputs == {"json", "lineprotocol"}
-Kinds == {"noop", "addField", "toTag", "setMeas", "setTime", "dropMsg", "useSibling", "loadErr", "runErr", "linkErr"}
+Kinds == {"noop", "addField", "toTag", "setMeas", "clearMeas", "setTime", "dropMsg", "useSibling", "loadErr", "runErr", "linkErr"}
 
 VARIABLES cfg, phase, pt, snap, out, err
 vars == <<cfg, phase, pt, snap, out, err>>
@@ -25,6 +25,7 @@ None == [meas |-> "-", time |-> "-", added |-> FALSE, totag |-> FALSE, dropped |
 Effect(k, p) == CASE k = "addField" -> [p EXCEPT !.added = TRUE]
                   [] k = "toTag" -> [p EXCEPT !.totag = TRUE]
                   [] k = "setMeas" -> [p EXCEPT !.meas = "new"]
+                  [] k = "clearMeas" -> [p EXCEPT !.meas = "empty"]     \* set_measurement(""): an empty name is still the script's result
                   [] k = "setTime" -> [p EXCEPT !.time = "set", !.dropped = TRUE]   \* default_time drops its key
                   [] k = "dropMsg" -> [p EXCEPT !.dropped = TRUE]
                   [] k = "useSibling" -> [p EXCEPT !.fromlib = TRUE]
@@ -32,6 +33,7 @@ Effect(k, p) == CASE k = "addField" -> [p EXCEPT !.added = TRUE]
 
 Init == /\ cfg \in [mode : Modes, input : Inputs, output : Outputs, kind : Kinds]
         /\ (cfg.kind \in {"useSibling", "linkErr"} => cfg.mode = "workspace")      \* a sibling needs a workspace
+        /\ (cfg.kind = "clearMeas" => cfg.output = "json")                          \* line protocol cannot encode an empty name
         /\ phase = "start" /\ pt = None /\ snap = None /\ out = None /\ err = "none"
 
 Select == /\ phase = "start"
